@@ -1,6 +1,7 @@
 package bworld
 
 import (
+	"bytes"
 	"context"
 	"errors"
 	"fmt"
@@ -196,15 +197,36 @@ type LogRec struct {
 type logStore struct {
 	mu   sync.Mutex
 	recs []LogRec
+	json *bytes.Buffer /* Output of a real JSON handler, if wanted. */
 }
 
 // logHandler is a capturing slog.Handler.
 type logHandler struct {
 	st    *logStore
 	attrs []slog.Attr
+	jh    slog.Handler
 }
 
-func newLogHandler() *logHandler { return &logHandler{st: &logStore{}} }
+func newLogHandler(withJSON bool) *logHandler {
+	h := &logHandler{st: &logStore{}}
+	if withJSON {
+		h.st.json = new(bytes.Buffer)
+		h.jh = slog.NewJSONHandler(h.st.json, nil)
+	}
+	return h
+}
+
+// takeJSON returns what the JSON handler wrote since the last call.
+func (h *logHandler) takeJSON() string {
+	h.st.mu.Lock()
+	defer h.st.mu.Unlock()
+	if nil == h.st.json {
+		return ""
+	}
+	s := h.st.json.String()
+	h.st.json.Reset()
+	return s
+}
 
 func (h *logHandler) Enabled(context.Context, slog.Level) bool { return true }
 
@@ -219,12 +241,19 @@ func (h *logHandler) Handle(_ context.Context, r slog.Record) error {
 	})
 	h.st.mu.Lock()
 	h.st.recs = append(h.st.recs, rec)
+	if nil != h.jh {
+		h.jh.Handle(context.Background(), r)
+	}
 	h.st.mu.Unlock()
 	return nil
 }
 
 func (h *logHandler) WithAttrs(as []slog.Attr) slog.Handler {
-	return &logHandler{st: h.st, attrs: append(append([]slog.Attr{}, h.attrs...), as...)}
+	n := &logHandler{st: h.st, attrs: append(append([]slog.Attr{}, h.attrs...), as...)}
+	if nil != h.jh {
+		n.jh = h.jh.WithAttrs(as)
+	}
+	return n
 }
 
 func (h *logHandler) WithGroup(string) slog.Handler { return h }
